@@ -20,6 +20,6 @@ def obligations(tier):
     for b in range(6):
         for a0 in range(4):
             obs.append(Ob("C06.precedence/bom%d/override%d" % (b, a0), "crosshair", "harness.C06:precedence", T, param={"bom": b, "a0": a0, "amax": 1 if q else 3},
-                          bounds="BOM kind %d, override_encoding choice %d, transport / parent x 4 choices, likely / default x %d choices, 4 prescan-window meta declarations, 4 late-meta variants" % (b, a0, 2 if q else 4),
+                          bounds="BOM kind %d, override_encoding choice %d, transport / parent x 4 choices, likely / default x %d choices, 4 prescan-window meta declarations, 5 late-meta variants (one beyond the first 10240-character chunk)" % (b, a0, 2 if q else 4),
                           encodes=[IS + "HTMLBinaryInputStream.determineEncoding", IS + "HTMLBinaryInputStream.detectBOM", IS + "HTMLBinaryInputStream.changeEncoding", "html5lib/html5parser.py:InHeadPhase.startTagMeta", "html5lib/html5parser.py:HTMLParser._parse"]))
     return obs
